@@ -512,10 +512,14 @@ impl FormatSpec {
                 magnitude if magnitude.is_nan() => Ok("nan%".to_owned()),
                 magnitude if magnitude.is_infinite() => Ok("inf%".to_owned()),
                 _ => {
-                    let result =
-                        float::format_fixed(precision, magnitude * 100.0, Case::Lower, false);
-                    let point = float::decimal_point_or_empty(precision, self.alternate_form);
-                    Ok(format!("{result}{point}%"))
+                    // a product that overflows is printed as "inf%", without a decimal point
+                    let result = float::format_fixed(
+                        precision,
+                        magnitude * 100.0,
+                        Case::Lower,
+                        self.alternate_form,
+                    );
+                    Ok(format!("{result}%"))
                 }
             },
             None => match magnitude {
